@@ -11,7 +11,7 @@ from bind import replay_packet as rp, replay_values as rv
 
 PY_CLAUSES = {"C13_shared_default", "C13_pack_pure", "C12.phase", "C12.pack_raises_only_PacketError", "conf_perr",
               "conf_pack_outcome", "conf_out", "conf_construct", "conf_outcome", "conf_values", "conf_pack2_outcome", "conf_out2",
-              "conf_assert_consistency", "ctor_error", "C20_ChangeMakesUnequal", "C19_Visible", "C20_Pattern"}
+              "conf_assert_consistency", "ctor_error", "C20_ChangeMakesUnequal", "C19_Visible", "C20_Pattern", "C02_PackSucceedsPos"}
 
 
 def cfg(universe, invariants, part, nparts):
